@@ -363,7 +363,7 @@ def phase_trace(recs, live_cmn):
         elif w[0] == "end":
             line = f"op endUtt {fed}" if rv == "0" else None
         elif w[0] == "result":
-            line = "op queryAlign" if any(l.startswith("A words=") for l in r["out"]) else "op query"
+            line = "op queryAlign" if any(l.startswith("A ") for l in r["out"]) else "op query"
         elif w[0] == "proc" and int(w[4]) > 0:
             before, fed = fed, fed + int(w[4])
             if w[6] == "1":
@@ -432,14 +432,23 @@ def judge_history(c, binp, mat, h, tables, stats, label, pre):
     stats["calls"] += len(hops) + len(fops)
     if crashed(rh) or crashed(rf):
         which = rh if crashed(rh) else rf
+        if "decoder_alignment" in which["err"] and any_alignment(h):
+            # a sanitizer report inside the second-pass aligner (e.g. the renormalisation overflow of a dead alignment search,
+            # C04's defect) is not an isolation failure: recorded, and the history is judged again without the alignment query
+            stats.setdefault("sanitizer_reports_inside_decoder_alignment", []).append(
+                (which["err"].split("runtime error:")[-1] if "runtime error:" in which["err"] else which["err"])[:160].strip())
+            vlib.log(f"[C08] {label}: sanitizer report inside decoder_alignment (not judged here); retrying without alignment")
+            return judge_history(c, binp, mat, without_alignment(h), tables, stats, label, pre)
         return {"kind": "crash", "exit_code": which["rc"], "stderr_tail": which["err"][-1500:],
                 "last_command": which["recs"][-1]["cmd"] if which["recs"] else None,
                 "ops": hops if crashed(rh) else fops}
     bad = reset_failures(rh) + reset_failures(rf)
-    if bad:
-        return {"kind": "reset-field-not-canonical", "fields": bad[:10], "ops": hops}
     a, b = section(rh, hmark), section(rf, fmark)
-    d = first_diff(a, b)
+    # the R lines themselves are bookkeeping of oracle (a); the property is judged on everything else
+    strip = lambda sec: [(cmd, [l for l in out if not l.startswith("R ")]) for cmd, out in sec]
+    d = first_diff(strip(a), strip(b))
+    if bad and d is None:
+        return {"kind": "reset-field-not-canonical", "fields": bad[:10], "ops": hops}
     tgt = rh["recs"][-1]["out"]
     hyp = next((l for l in tgt if l.startswith("H ")), "H 0 (null)")
     stats["target_hyp"]["none" if hyp.endswith("(null)") else "some"] += 1
@@ -450,6 +459,8 @@ def judge_history(c, binp, mat, h, tables, stats, label, pre):
     if d is not None:
         res = {"kind": "kth-utterance-differs-from-fresh-decoder", "first_difference": d,
                "history_ops": hops, "fresh_ops": fops, "poison_mask": h["poison"]}
+        if bad:
+            res["reset_fields_not_canonical"] = bad[:10]
         if h["poison"]:
             # separate (b) from (c): the same history without poisoning
             hops2, _ = history_ops(h, mat, poison=False)
@@ -464,6 +475,17 @@ def judge_history(c, binp, mat, h, tables, stats, label, pre):
             if probs:
                 return {"kind": "model-tie", "problems": probs[:6], "ops": hops if lab == "history" else fops}
     return None
+
+
+def any_alignment(h):
+    return any(u["flags"] & 2 for u in [it["utt"] for it in h["items"] if it["op"] == "utt"] + [h["target"]["utt"]])
+
+
+def without_alignment(h):
+    h = json.loads(json.dumps(h))
+    for u in [it["utt"] for it in h["items"] if it["op"] == "utt"] + [h["target"]["utt"]]:
+        u["flags"] &= ~2
+    return h
 
 
 def finding_class(res):
@@ -533,6 +555,10 @@ def judge_pair(c, binp, mat, pair, stats, rng, pre):
     stats["calls"] += len(order) * 2
     for r, ops in [(ri, order)] + list(zip(rs, lists)):
         if crashed(r):
+            if "decoder_alignment" in r["err"] and any(any_alignment(h) for h in pair):
+                stats.setdefault("sanitizer_reports_inside_decoder_alignment", []).append(
+                    (r["err"].split("runtime error:")[-1] if "runtime error:" in r["err"] else r["err"])[:160].strip())
+                return judge_pair(c, binp, mat, [without_alignment(h) for h in pair], stats, rng, pre)
             return {"kind": "crash", "exit_code": r["rc"], "stderr_tail": r["err"][-1500:], "ops": ops,
                     "last_command": r["recs"][-1]["cmd"] if r["recs"] else None}
     for d in range(2):
@@ -634,11 +660,25 @@ def new_stats():
 
 
 def harness(c):
-    import gen_fields, hashlib
+    """build harness/h_c08.c against the fresh library and keep a private copy (other checks running in parallel prune
+    the shared build cache, which only keeps the four most recent trees)"""
+    import gen_fields, hashlib, shutil, time
     hp = gen_fields.header_path()
     tag = hashlib.sha256(hp.read_bytes()).hexdigest()[:12]
-    return vlib.build_harness("h_c08", extra_flags=["-I" + str(hp.parent), "-DC08_INV_" + tag,
-                                                      "-Wl,--allow-multiple-definition", "-no-pie"])
+    last = None
+    for attempt in range(5):
+        try:
+            binp = vlib.build_harness("h_c08", extra_flags=["-I" + str(hp.parent), "-DC08_INV_" + tag,
+                                                              "-Wl,--allow-multiple-definition", "-no-pie"])
+            mine = c.scratch / "h_c08"
+            shutil.copy2(binp, mine)
+            return mine
+        except (FileNotFoundError, vlib.BuildError) as e:
+            last = e
+            if isinstance(e, vlib.BuildError) and "No such file" not in str(e) and "no such file" not in str(e):
+                raise
+            time.sleep(0.5 + attempt)
+    raise vlib.BuildError(f"harness h_c08 could not be built (build cache pruned concurrently?): {last}")
 
 
 def check(c):
@@ -671,8 +711,8 @@ def check(c):
     rng = c.rng.fork()      # seeds 1,2,3… of vlib.Rng are one stream shifted by one draw; fork() decorrelates them
     nhist = {"quick": 16, "thorough": 450}[c.tier]
     npair = {"quick": 3, "thorough": 60}[c.tier]
-    # corpus first
-    ncorp = 0
+    # corpus first (every case is judged; each failing one is its own violation)
+    ncorp, corpus_failed = 0, False
     for f in sorted((vlib.ROOT / "corpus" / "C08").glob("*.json")):
         obj = json.loads(f.read_text())
         ncorp += 1
@@ -683,8 +723,10 @@ def check(c):
         else:
             res = judge_history(c, binp, mat, obj["history"], tables, stats, f"corpus {f.name}", pre)
         if res is not None:
-            report(c, res, obj.get("history"), mat, f"corpus {f.name}")
-            return
+            corpus_failed = True
+            report(c, res, obj.get("history"), mat, f"corpus {f.name}", stats)
+    if corpus_failed:
+        nhist = npair = 0
     distinct, ok = set(), True
     for i in range(nhist):
         h = gen_history(rng, mat, stats)
@@ -699,7 +741,7 @@ def check(c):
             if res["kind"] not in ("crash", "model-tie"):
                 h = shrink_history(c, binp, mat, h, tables, stats, pre, res["kind"])
                 res = judge_history(c, binp, mat, h, None, stats, f"history {i} shrunk", pre) or res
-            report(c, res, h, mat, f"history {i}")
+            report(c, res, h, mat, f"history {i}", stats)
             break
     npairs_done = 0
     if ok:
@@ -713,19 +755,23 @@ def check(c):
                 ok = False
                 res["pair"] = pair
                 res["interleave_rng_state"] = seed_state
-                report(c, res, None, mat, f"pair {i}")
+                report(c, res, None, mat, f"pair {i}", stats)
                 break
     nprobe = 0
     if ok and c.tier == "thorough":
         ok, nprobe = selection_history_probe(c, binp, mat, rng, pre, stats)
-    c.oblige("(a) every reset-at-start cell has its canonical value after decoder_start_utt, in every utterance of every history", ok)
-    c.oblige("(b) garbage in every dead-on-start buffer / perturbed log-only counters and ring phases leave the result bit-identical", ok)
+    fk = stats.get("failed_kind")
+    c.oblige("(a) every reset-at-start cell has its canonical value after decoder_start_utt, in every utterance of every history",
+             fk != "reset-field-not-canonical")
+    c.oblige("(b) garbage in every dead-on-start buffer / perturbed log-only counters and ring phases leave the result bit-identical",
+             fk not in ("poisoning-a-dead-buffer-changes-the-result", "selection-history-not-neutral"))
     c.oblige("(c) the k-th utterance of every generated history equals a fresh decoder given the same configuration, grammar and CMN text "
-             "(batch CMN + full_utt: without any CMN reset)", ok)
-    c.oblige("(d) two interleaved decoders each equal their solo run", ok)
+             "(batch CMN + full_utt: without any CMN reset); no sanitizer report / abort on the way",
+             fk not in ("kth-utterance-differs-from-fresh-decoder", "crash"))
+    c.oblige("(d) two interleaved decoders each equal their solo run", fk != "two-decoders-interfere")
     if tables is not None:
         c.oblige("(e) per call: changed inventory cells ⊆ declared write set of the model operation; protocol phase = acmod->state; "
-                 "the model never reports a stale read", ok)
+                 "the model never reports a stale read", fk != "model-tie")
         stats["declared_write_groups_never_observed"] = {op: sorted(stats["declared_writes"][op] - stats["observed_writes"].get(op, set()))
                                                          for op in stats["declared_writes"]
                                                          if stats["declared_writes"][op] - stats["observed_writes"].get(op, set())}
@@ -767,6 +813,7 @@ def selection_history_probe(c, binp, mat, rng, pre, stats):
                 ok = False
                 c.oblige("the top-N codeword history is result-neutral at the level of per-frame senone scores", False,
                          {"ops": ops, "observed": obs[:4], "reference": base[:4]})
+                stats["failed_kind"] = "selection-history-not-neutral"
                 c.violation({"kind": "selection-history-not-neutral", "ops": ops, "observed": obs, "reference": base,
                              "note": "garbage (valid, distinct codewords) in ptm_fast_eval_s.topn changed the senone scores; "
                                      "the classification `sel` = result-neutral is wrong for the implementation"}, False)
@@ -775,7 +822,23 @@ def selection_history_probe(c, binp, mat, rng, pre, stats):
     return ok, n
 
 
-def report(c, res, h, mat, label):
+def witness_class(res, h):
+    """stable identifier of the class of a witness (the key of a known_findings.json entry, should one be needed)"""
+    k = res["kind"]
+    if h is None or k not in ("kth-utterance-differs-from-fresh-decoder",):
+        return k
+    t = h["target"]["utt"]
+    streamed_before = any(it["op"] == "utt" and it["utt"]["mode"] != "batch" and it["utt"]["len"] > 0 for it in h["items"])
+    if t["mode"] == "batch" and h["cfg"] != "livecmn" and streamed_before:
+        return k + "/batch-utterance-after-streaming-with-batch-cmn-configured"
+    if t["mode"] != "batch" and t["chunks"] and (t["chunks"][0] < FRAME_SIZE or t["len"] < FRAME_SIZE):
+        return k + "/first-call-shorter-than-an-analysis-window"
+    return k + "/other"
+
+
+def report(c, res, h, mat, label, stats=None):
+    if stats is not None:
+        stats["failed_kind"] = res["kind"]
     found = res["kind"] in ("kth-utterance-differs-from-fresh-decoder", "two-decoders-interfere",
                             "poisoning-a-dead-buffer-changes-the-result", "reset-field-not-canonical")
     # poisoning / canonical-value failures show that the classification is wrong for the implementation, which is a broken tie;
@@ -788,7 +851,8 @@ def report(c, res, h, mat, label):
     obj["audio_pool"] = [a["name"] for a in mat["audio"]]
     obj["how_to_rerun"] = "python3 tools/check.py C08 --replay <this file>"
     c.oblige(f"isolation holds on {label}", False, {k: res[k] for k in res if k in ("kind", "first_difference", "fields", "problems", "last_command", "stderr_tail")})
-    c.violation(obj, found_input, finding_key=None)
+    obj["witness_class"] = witness_class(res, h)
+    c.violation(obj, found_input, finding_key=obj["witness_class"])
 
 
 def replay(c, path):
